@@ -92,3 +92,13 @@ _add("C12", method="; transparent-reader check (the reader's post-processing of 
      text=" parse_y0 returns what the text denotes, unsimplified (R12.10); fields that equality compares order-free are stored order-free (R12.11).")
 _add("C06", text=" Probability.intervene moves the whole distribution -- children and conditioning set (R6.4 reference row).")
 _add("C14", text=" _to_interventions keeps every (name, star) pair (keyed-collapse refutation: a dict keyed by one field of a multi-field class and read back through .values()).")
+
+# ---- round 5 ----------------------------------------------------------------------------------------------------------------------------
+_add("C16", method="; must-pass-through rule over the return paths of evans_simplify (LV-DAG -> caller's latents tagged -> Evans' rules -> read-off); option-threading rule (a routine that takes `tag` hands it to every callee that takes `tag`)",
+     text=" Every answer of evans_simplify goes through the whole pipeline (R16.6); the latent tag is threaded through every LV-DAG routine and the Taheri design helpers (R16.7).")
+_add("C12", text=" The parser's alphabet is closed under the documented naming scheme: every letter x digits 0-9 x with/without underscore (R12.1 alphabet-closed).")
+_add("C06", text=" Reader and writer of selection-node names (is_transport_node / transport_variable) are held to their definitions: a prefix test on the name and nothing else (R6.5 selection-node-names).")
+_add("C05", text=" TRSO line 2 is held to its definition (the CURRENT domain's diagram decides what is marginalised; R5.3 line2-restriction); selection-node names as in C06.")
+_add("C07", text=" Integer recursion counters are left free in the comparison: a step that depends on the depth of the recursion is a deviation.")
+_add("C08", text=" Integer recursion counters are left free in the comparison.")
+_add("C13", text=" A path of Sum.simplify that returns the constant Zero() is refuted (R13.3).")
